@@ -185,7 +185,7 @@ func solveOne(r *FuncResult, o *Obligation, opt solveOpts) {
 		return
 	}
 	// fast attempt, then the full race
-	res := portfolio(file, opt.seed, min(4, opt.timeoutS), "z3-new")
+	res := portfolio(file, opt.seed, min(8, opt.timeoutS), "z3-new")
 	if res.verdict != "unsat" && res.verdict != "sat" {
 		// the full race starts six solver processes: at most three races at a time, so that each keeps real CPU time
 		heavySem <- struct{}{}
